@@ -1,7 +1,7 @@
 #!/bin/bash
 # Apply each mutation to a scratch copy of the snapshot and run the quick check against it.
 # usage: mutation_tests/C08/run_all.sh [snapshot=/tmp/work/repo_snap] [scratch=/tmp/work/mut_C08]
-SNAP=${1:-/tmp/work/repo_snap13}; SCR=${2:-/tmp/work/mut_C08}
+SNAP=${1:-/tmp/work/repo_snap14}; SCR=${2:-/tmp/work/mut_C08}
 HERE=$(cd "$(dirname "$0")" && pwd); ROOT=$(cd "$HERE/../.." && pwd)
 for d in "$HERE"/m*.diff; do
   m=$(basename "$d" .diff)
